@@ -9,6 +9,8 @@ pub fn gen(tier: &str, seed: u64) -> Vec<String> {
     let mut lines = gen_part(seed ^ 0xCA11, n, false);
     // chv2: the same grammar with a `defchordsv2` table (appended: the cases above are what they were)
     lines.extend(gen_part(seed ^ 0xCA11C2, n / 3, true));
+    // [dyn] configurations with dynamic-macro keys
+    lines.extend(crate::kandyn::gen_lines(tier, seed ^ 0x55, 300));
     lines
 }
 
